@@ -204,7 +204,7 @@ func TestC04Transcript(t *testing.T) {
 		s := s
 		t.Run(s.name, func(t *testing.T) {
 			sub := "transcript/" + s.name
-			vlib.Check(t, vlib.N(60, 900), func(t *rapid.T) {
+			vlib.Check(t, vlib.N(60, 250), func(t *rapid.T) {
 				seed := vlib.EdgeBytes(t, 32, "seed")
 				msg := vlib.Msg(t, "msg")
 				ctx := drawCtx(t, s)
@@ -392,7 +392,7 @@ func TestC04Verdict(t *testing.T) {
 		p := s.p
 		t.Run(s.name, func(t *testing.T) {
 			sub := "verdict/" + s.name
-			vlib.Check(t, vlib.N(80, 700), func(t *rapid.T) {
+			vlib.Check(t, vlib.N(80, 220), func(t *rapid.T) {
 				seed := vlib.EdgeBytes(t, 32, "seed")
 				msg := vlib.Msg(t, "msg")
 				ctx := drawCtx(t, s)
@@ -550,7 +550,7 @@ func TestC04RareBranches(t *testing.T) {
 		vlib.ExpandInto(seed, uint64(vlib.Seed)*131+7)
 		pk, sk, _, _ := s.derive(seed)
 		_, skb := p.KeyGen(seed)
-		n := vlib.N(200, 2500)
+		n := vlib.N(250, 1500)
 		for i := 0; i < n; i++ {
 			ctr := uint64(i)*uint64(vlib.NShards) + uint64(vlib.Shard)
 			msg := []byte(fmt.Sprintf("C04 rare-branch search %d/%d", vlib.Seed, ctr))
